@@ -546,7 +546,7 @@ func (pr *ProtoArray) inSubtree(anchorIndex NodeIndex, lookupIndex NodeIndex) (u
 		return false, false
 	}
 	// shortcut: if they have the same relative head, they are on the same chain.
-	if anchorNode.BestDescendant == lookupIndex || anchorNode.BestDescendant == lookupNode.BestDescendant {
+	if anchorNode.BestDescendant == lookupIndex || (anchorNode.BestDescendant != NONE && anchorNode.BestDescendant == lookupNode.BestDescendant) {
 		return false, true
 	}
 	// Root may still be on a different non-canonical branch out of the anchor.
@@ -554,7 +554,7 @@ func (pr *ProtoArray) inSubtree(anchorIndex NodeIndex, lookupIndex NodeIndex) (u
 		tmp := &pr.nodes[i-pr.indexOffset]
 		// early exit: as soon as we find a node that has the same relative head as the anchor,
 		// we know we are in-between the anchor and the head, thus in the subtree, thus an ancestor.
-		if tmp.BestDescendant == anchorNode.BestDescendant {
+		if i == anchorIndex || (anchorNode.BestDescendant != NONE && tmp.BestDescendant == anchorNode.BestDescendant) {
 			return false, true
 		}
 		i = tmp.TransitionParent
